@@ -24,8 +24,8 @@ META = {
     "text": "Initiator {client, server} x in-flight peer message M from {DATA, EXTENDED_DATA, WINDOW_ADJUST, channel "
             "requests with/without reply, EOF, CLOSE, GLOBAL_REQUEST with reply, tcpip-forward, CHANNEL_OPEN} (or a user "
             "thread sending on the initiating side, or keepalives enabled; exchange started by renegotiate_keys() or "
-            "by crossing the send threshold, then also with the first bytes of the peer's packet arriving early "
-            "as a fragment): every order in which the environment can "
+            "by crossing the send threshold, then also with the first 3 / 4 / 16 / 20 bytes of the peer's packet arriving "
+            "early as a fragment, under the default suite, AES-GCM and an encrypt-then-MAC suite): every order in which the environment can "
             "deliver the packets of the two directions. Between KEXINIT and NEWKEYS a side sends only message "
             "types 1-4, 7 and 20-49; the exchange completes within 35 virtual seconds; both sides stay active; M is "
             "delivered/answered afterwards - once: a further complete exchange on the then idle connection (all "
@@ -92,11 +92,23 @@ def make_body(scn, second=None, want_raw=False):
     involved) - nothing that was queued for the first exchange may be emitted again by a later one."""
     initiator, msgs, user_send, keepalive = scn[:4]
     trigger = scn[4] if len(scn) > 4 else "explicit"
+    suite = scn[5] if len(scn) > 5 else "default"
     if second is None:
         second = not keepalive
 
     def body(s):
-        p = F.Pair().up()
+        p = F.Pair()
+        if suite != "default":
+            # packet framing families read a packet in different pieces (AEAD: 4-byte length then the rest;
+            # encrypt-then-MAC: length, then body+MAC; classic: first block, then the rest)
+            for t in (p.tc, p.ts):
+                so = t.get_security_options()
+                if suite == "gcm":
+                    so.ciphers = ("aes128-gcm@openssh.com",)
+                else:
+                    so.ciphers = ("aes128-ctr",)
+                    so.digests = ("hmac-sha2-256-etm@openssh.com",)
+        p.up()
         c, sv = p.session()
         s.quiesce()
         ti, tp = (p.tc, p.ts) if initiator == "c" else (p.ts, p.tc)
@@ -124,8 +136,11 @@ def make_body(scn, second=None, want_raw=False):
         if trigger == "threshold":
             # network behaviour: the first bytes of the peer's in-flight packet may already have arrived
             # (a fragment) when the threshold is crossed
-            if pipe_p2i.inflight and s.choose(2, ("whole-packets", "first-3-bytes-arrived-early"), cost=0) == 1:
-                pipe_p2i.deliver_partial(3)
+            FRAGS = (0, 3, 4, 16, 20)
+            k = s.choose(len(FRAGS), ("whole-packets",) + tuple("first-%d-bytes-arrived-early" % n for n in FRAGS[1:]),
+                         cost=0) if pipe_p2i.inflight else 0
+            if k:
+                pipe_p2i.deliver_partial(FRAGS[k])
                 s.quiesce()
             ti.packetizer.REKEY_BYTES = 1
 
@@ -351,6 +366,9 @@ def scenarios(tier):
         out.append((ini, (), False, False, "threshold"))
         for m in (("data", "eof", "close", "window-adjust", "global-keepalive") if tier == "quick" else peer_msgs):
             out.append((ini, (m,), False, False, "threshold"))
+        for su in ("gcm", "etm"):
+            for m in (("data", "global-keepalive") if tier == "quick" else peer_msgs):
+                out.append((ini, (m,), False, False, "threshold", su))
         if tier != "quick":
             for i, a in enumerate(peer_msgs):
                 for b in peer_msgs[i + 1:]:
